@@ -40,7 +40,10 @@ pub fn run(prop: &str, ctx: &mut Ctx) -> bool {
                 ctx.tr.scenario("c03-soak-n8-indirect-eventidx"); qrig::soak::<8>(ctx, 3, 70_000);
             }
             // C04 at driver level: a driver that keeps several requests outstanding under tokens (sound PCM)
-            if prop == "C04" { c20_snd::run_nb(ctx); c06::run_alloc_faults(ctx); }
+            if prop == "C04" {
+                c20_snd::run_nb(ctx); c06::run_alloc_faults(ctx);
+                for f in 0..4u8 { ctx.tr.scenario(&format!("c04-anwp-refused-f{}", f)); qrig::anwp_refused::<4>(ctx, f); qrig::anwp_refused::<16>(ctx, f); }
+            }
         }
         "C14" => c14::run(ctx),
         "C15" => c15::run(ctx),
